@@ -445,7 +445,7 @@ func c05KernelTier(run *vlib.Run, ts []*vlib.Target) {
 		cc := &vlib.ChildCase{Policy: kc.spec, Flags: 0, NNP: true}
 		res, err := vlib.RunChild(bin, "enforce", cc, false, 30*time.Second)
 		if err != nil || res.TimedOut || res.Line("loaded") == nil {
-			run.Inconclusive(fmt.Sprintf("kernel tier: child did not report (%v)", err))
+			run.SoftInconclusive(fmt.Sprintf("kernel tier: child did not report (%v)", err))
 			return
 		}
 		run.Count("kernel_loads_of_accepted_programs", 1)
@@ -565,7 +565,7 @@ func c05KernelTier(run *vlib.Run, ts []*vlib.Target) {
 		port := vlib.KernelCheck(neutral)
 		res, err := vlib.RunChild(bin, "rawload", cc, false, 30*time.Second)
 		if err != nil || res.TimedOut || res.Line("rawloaded") == nil {
-			run.Inconclusive("calibration child did not report: " + mt.name)
+			run.SoftInconclusive("calibration child did not report: " + mt.name)
 			return
 		}
 		errno := jsonU64(res.Line("rawloaded")["errno"])
